@@ -86,7 +86,7 @@ PROPS = {
     "C17": dict(ktie=["Idx", "MergeV", "MergeA", "MergeVD", "MergeAD"], monitors=["C17", "NP", "LV"], monitor="C17", modules=["C17", "C01"], proj="FUN", cfgs=ALL3, quick=2500, thorough=30000,
                 gens=[(["merge"], "mt-fair", 0.5), (["merge"], "mt", 0.2), (["merge"], "drain", 0.3), (["merge"], "exh", 0.5), (["merge"], "fair", 1.0), (["merge"], "random", 0.5), (["merge"], "stuck", 0.2)],
                 assumptions=COMMON_ASSUME),
-    "C11": dict(ktie=["Grp", "GrpPoll", "GrpD"], monitors=["C11", "NP", "LV"], monitor="C11", modules=["C11", "C01g"], proj="GRP", cfgs=["std", "alloc", "stdv"], ks=True, quick=3000, thorough=40000,
+    "C11": dict(ktie=["Grp", "GrpPoll", "GrpD", "GrpPollDF"], monitors=["C11", "NP", "LV"], monitor="C11", modules=["C11", "C01g"], proj="GRP", cfgs=["std", "alloc", "stdv"], ks=True, quick=3000, thorough=40000,
                 gens=[(["fgroup"], "exh", 1.0), (["fgroup"], "mt", 0.2), (["fgroup"], "random", 1.0), (["fgroup"], "big", 0.5), (["fgroup"], "stuck", 0.3),
                       (["fgroup"], "panic", 0.2), (["fgroup"], "refill", 0.5), (["fgroup"], "drain", 0.5)],
                 assumptions=COMMON_ASSUME + ["every inserted future is a new object (Case.insertsFresh) of the right "
